@@ -302,6 +302,7 @@ func PatchLinker(goRoot, goVersion, cacheDir, tempDir string) (string, func(), e
 	if err := os.Rename(tmpLinkPath, outputLinkPath); err != nil {
 		return "", nil, err
 	}
+	verifEvent("link-renamed")
 	if err := writeVersion(outputLinkPath, goVersion, patchesVer); err != nil {
 		return "", nil, err
 	}
